@@ -25,7 +25,7 @@ RULE = (
     "reachable of which >=1 is forbidden to run and the step is not empty; distinct by (program, step)."
 )
 ASSUMPTIONS = [
-    "cone item 7 (call-site context of run-time-argument keeps) is over-approximated: such nodes are never asserted idle after an edit of accepted code",
+    "cone item 7 (call-site context of run-time-argument keeps) is over-approximated by the closure of the nearest enclosing function whose own arguments are known statically (data function, literal keep, call without explicit arguments, the evaluated root); when no such function can be determined the node is not asserted idle",
     "the noop store is excluded (it never serves anything)",
 ]
 
@@ -91,7 +91,19 @@ def allowed(prog_before, prog_after, root, step, edit):
         if s is None:
             return True
         if not s["ctxfree"]:
-            return True
+            # run-time arguments: the signature also covers the call-site context (cone item 7). The context is
+            # bounded by the closure of the nearest enclosing function whose own arguments are known statically.
+            top = M.context_owner(prog_after, root, p)
+            if top is None:
+                return True
+            cl_top = M.closure(prog_after, top)
+            if any(ti in cl_top[tk] for (tk, ti) in targets) or p in in_edited_fn:
+                return True
+            # the (literal) arguments bound to that function are part of its input: they sit in the text of its caller
+            # (only a change of the referencing statement itself counts, not any edit of the caller)
+            after = [st for (_ck, _ci, st) in M.references(prog_after).get(top, [])]
+            before = [st for (_ck, _ci, st) in M.references(prog_before).get(top, [])]
+            return after != before
         cl = M.closure(prog_after, s["callee"])
         if any(ti in cl[tk] for (tk, ti) in targets):
             return True
